@@ -187,6 +187,16 @@ CHECKS.update({
         text='Programs with constants and input-dependent values, decidable and undecidable conditions, loops, arrays, unused locals and dummies; transformed code validated by Trace_FMachine.',
         note='Known findings: constant propagation is unsound for several constructs; integer division as exact.'),
 })
+CHECKS.update({
+    'C28': dict(
+        technique='TLA+ reference machine FMachine (incl. host association of internal procedures) predicts the output; every inlining entry point applied to generated caller/callee structures organised in construct slices',
+        text='inline_internal_procedures, inline_marked_subroutines, inline_functions, inline_statement_functions, inline_constant_parameters and InlineTransformation option sets on generated programs (array/scalar/element/expression actuals, keyword and optional arguments, local name clashes, nested calls, functions inside larger expressions, imported PARAMETER constants); transformed modules compiled and validated by Trace_FMachine. A base slice must stay clean; every other slice adds one construct.',
+        note='Many known findings, one key prefix per construct slice.'),
+    'C33': dict(
+        technique='Same machine; outline_pragma_regions (with in/out/inout overrides) and extract_internal_procedures / ExtractTransformation on generated routines',
+        text='Marked regions reading / writing / read-and-writing scalars and arrays, calls inside regions, values written in the region and read afterwards; internal procedures using host-associated variables; validated by Trace_FMachine.',
+        note='Known findings per construct slice.'),
+})
 NOT_APPLICABLE = {p: 'check not built yet (work in progress; see DESIGN.md build order)' for p in ALL if p not in CHECKS}
 for e in ENGINES:
     e['serves_properties'] = sorted(CHECKS)
